@@ -69,6 +69,7 @@ type Tape struct {
 	r      *rng
 	Rec    []Entry
 	replay []Entry // non-nil: replay mode
+	rq     map[string][]int // replay values per label, in recorded order
 	rpos   int
 	Forced map[string]int // label -> forced value (enumeration dimensions)
 	depth  int
@@ -77,15 +78,21 @@ type Tape struct {
 func NewTape(seed uint64) *Tape { return &Tape{Seed: seed, r: newRng(seed)} }
 
 // NewReplay replays the decisions of a recorded tape (markers ignored).
-// Past the end of the tape every choice is 0.
+// Replay is keyed by label: each label has its own queue of recorded values,
+// consumed in order. A full recorded tape therefore replays exactly, and
+// deleting a block of one kind of decision (an operation, say) during
+// minimisation does not shift the meaning of every other kind (fault
+// position, schedule). A label whose queue is exhausted yields 0.
 func NewReplay(entries []Entry) *Tape {
 	rp := make([]Entry, 0, len(entries))
+	rq := map[string][]int{}
 	for _, e := range entries {
 		if e.N > 0 {
 			rp = append(rp, e)
+			rq[e.L] = append(rq[e.L], e.V)
 		}
 	}
-	return &Tape{replay: rp, r: newRng(0)}
+	return &Tape{replay: rp, rq: rq, r: newRng(0)}
 }
 
 func (t *Tape) Replaying() bool { return t.replay != nil }
@@ -100,12 +107,12 @@ func (t *Tape) Choice(n int, label string) int {
 	}
 	var v int
 	if t.replay != nil {
-		if t.rpos < len(t.replay) {
-			v = t.replay[t.rpos].V % n
+		if q := t.rq[label]; len(q) > 0 {
+			v = q[0] % n
 			if v < 0 {
 				v = 0
 			}
-			t.rpos++
+			t.rq[label] = q[1:]
 		}
 	} else {
 		v = int(t.r.next() % uint64(n)) // always draw, so forcing does not shift the stream
